@@ -197,12 +197,28 @@ fn gen_weights<F: Fl>(rng: &mut Rng, n: usize, class: usize) -> Vec<F> {
     v.into_iter().map(F::of).collect()
 }
 
-fn gen_shape_axis(rng: &mut Rng) -> (Vec<usize>, usize) {
-    let nd = *rng.pick(&[1usize, 1, 2, 2, 3]);
+fn gen_shape_axis(rng: &mut Rng, block_sizes: bool) -> (Vec<usize>, usize) {
+    let nd = *rng.pick(&[1usize, 1, 2, 2, 3, 3, 4, 5]);
     let axis = rng.below(nd);
-    let mut shape: Vec<usize> = (0..nd).map(|_| 1 + rng.below(4)).collect();
+    let small = if nd >= 4 { 3 } else { 4 };
+    let mut shape: Vec<usize> = (0..nd).map(|_| 1 + rng.below(small)).collect();
     let long = rng.chance(0.08);
     shape[axis] = 1 + rng.below(if nd == 1 && long { 300 } else { 64 / (nd * nd) + 4 });
+    // element counts / lane lengths at and around powers of two and multiples of 128 (blocked accumulations)
+    if block_sizes && rng.chance(0.06) {
+        if nd == 1 {
+            shape[0] = *rng.pick(&[127usize, 128, 129, 256, 384, 512, 1024, 4096, 8192]);
+        } else if nd == 2 {
+            if rng.chance(0.5) {
+                shape[axis] = *rng.pick(&[128usize, 256]);
+                shape[1 - axis] = 1 + rng.below(3);
+            } else {
+                shape = vec![16, 8];
+            }
+        } else if nd == 3 {
+            shape = vec![4, 8, 4];
+        }
+    }
     (shape, axis)
 }
 
@@ -234,7 +250,8 @@ fn lane_view<'a, F: Clone>(v: &ArrayViewD<'a, F>, axis: usize, idx: &[usize]) ->
 // C06 / C07 / C18(axis==lane): floats
 // ---------------------------------------------------------------------------
 fn summary_case<F: Fl>(rng: &mut Rng, acc: &mut Acc, prop: &str) {
-    let (shape, axis) = gen_shape_axis(rng);
+    // the variance / moment oracles replay recurrences in exact rationals: keep their inputs short
+    let (shape, axis) = gen_shape_axis(rng, prop == "C06");
     let nd = shape.len();
     let n: usize = shape.iter().product();
     let dclass = rng.below(9);
@@ -309,6 +326,24 @@ fn summary_case<F: Fl>(rng: &mut Rng, acc: &mut Acc, prop: &str) {
             rec(acc, "weighted_mean_axis", ty, format!("{},\"lane\":{},\"x\":{},\"w\":{},\"r\":{},\"r2\":{},\"r3\":{}", meta, li, hexes(&lane), hexes(&waxis), res_json(&pick(&rm)), res_json(&r2), res_json(&r3)));
         }
     }
+    if prop == "C07" && rng.chance(0.12) && n >= 3 {
+        // a masked outlier: the first observation (logical order) has weight zero and lies far from the data
+        let far = F::of(*rng.pick(&[1.0e6, -3.0e9, 1.0e16, -1.0e12]));
+        let mut d2 = data.clone();
+        let mut w2 = wfull.clone();
+        d2[0] = far;
+        w2[0] = F::zero();
+        if w2.iter().any(|w| *w > F::zero()) {
+            let e2 = Embedded::new(&shape, &d2, ld.clone());
+            let ew2 = Embedded::new(&shape, &w2, lw.clone());
+            let dd = F::of(*rng.pick(&[0.0, 1.0, 0.5]));
+            let r = catch(|| e2.view().weighted_var(&ew2.view(), dd));
+            rec(acc, "weighted_var", ty, format!("{},\"x\":{},\"w\":{},\"ddof\":\"{}\",\"r\":{}", meta, hexes(&d2), hexes(&w2), dd.hex(), res_json(&r)));
+            let r = catch(|| e2.view().weighted_std(&ew2.view(), dd));
+            rec(acc, "weighted_std", ty, format!("{},\"x\":{},\"w\":{},\"ddof\":\"{}\",\"r\":{}", meta, hexes(&d2), hexes(&w2), dd.hex(), res_json(&r)));
+            acc.count("masked_outlier_cases");
+        }
+    }
     if prop == "C07" {
         let ddof = F::of(*rng.pick(&[0.0, 1.0, 0.25, 0.5]));
         let r = catch(|| v.weighted_var(&w, ddof));
@@ -367,7 +402,7 @@ fn summary_case<F: Fl>(rng: &mut Rng, acc: &mut Acc, prop: &str) {
 /// C18: per-axis == whole-array on the owned lane, and central_moments(p)[k] == central_moment(k) bit for bit
 fn c18_num_case<F: Fl>(rng: &mut Rng, acc: &mut Acc) {
     // (a) moments, in-process bit equality
-    let (shape, _axis) = gen_shape_axis(rng);
+    let (shape, _axis) = gen_shape_axis(rng, false);
     let n: usize = shape.iter().product();
     let dclass = rng.below(9);
     let data: Vec<F> = gen_data::<F>(rng, n, dclass);
@@ -418,7 +453,7 @@ fn c18_num_case<F: Fl>(rng: &mut Rng, acc: &mut Acc) {
 macro_rules! int_means {
     ($name:ident, $t:ident) => {
         fn $name(rng: &mut Rng, acc: &mut Acc) {
-            let (shape, axis) = gen_shape_axis(rng);
+            let (shape, axis) = gen_shape_axis(rng, true);
             let nd = shape.len();
             let n: usize = shape.iter().product();
             // keep sum |terms| <= MAX so no summation order can overflow
@@ -542,6 +577,21 @@ fn cov_case<F: Fl>(rng: &mut Rng, acc: &mut Acc) {
         if (0..no).all(|k| data[no + k] == data[no]) {
             data[no] = data[no] + F::one();
         }
+    }
+    // exactly (anti-)collinear variables on an integer grid: rho must be +-1 up to roundoff, never the other sign
+    if nv >= 2 && rng.chance(0.15) {
+        let a = *rng.pick(&[-2.0, -1.0, -0.5, 0.5, 3.0, -4.0]);
+        let b = rng.range(-8, 8) as f64;
+        for k in 0..no {
+            data[k] = F::of(rng.range(-40, 40) as f64);
+        }
+        if (0..no).all(|k| data[k] == data[0]) {
+            data[0] = data[0] + F::one();
+        }
+        for k in 0..no {
+            data[no + k] = F::of(a * data[k].to_f64().unwrap() + b);
+        }
+        acc.count("exactly_collinear_pairs");
     }
     // a quarter of the matrices are rescaled per variable by 10^s (finite data of very large / very small
     // magnitude: products of two variances leave the exponent range long before the data or the covariances do)
@@ -680,7 +730,7 @@ fn dev_float_case<F: Fl>(rng: &mut Rng, acc: &mut Acc) {
     acc.count(&format!("layout_pair_{}_{}", fa, fb));
     let ea = Embedded::new(&shape, &a, la.clone());
     let eb = Embedded::new(&shape, &b, lb.clone());
-    let maxv = F::of(*rng.pick(&[1.0, 255.0, 10.0]));
+    let maxv = F::of(*rng.pick(&[1.0, 255.0, 10.0, -255.0, -1.0, 65535.0, 1.0e-3]));
     let meta = format!(",\"shape\":{:?},\"lay\":\"{}/{}\"", shape, la.class(), lb.class());
     // ownership kinds for the two operands
     let own = rng.below(5);
@@ -880,8 +930,18 @@ macro_rules! dev_int_case {
                     }
                 }
             }
-            let maxv = mk(255.min(lim));
-            let mvf = 255.min(lim) as f64;
+            // the peak value is independent of the data: large relative to the type, either sign
+            let peak: i64 = {
+                let cands: [i64; 8] = [255.min(lim), 100, -100, 255, -255, 30_000, 65_535, -4_000_000_000];
+                let mut c = *rng.pick(&cands);
+                let tm: i128 = $tmax;
+                if (c as i128).abs() > tm {
+                    c = (tm as i64).min(100) * if c < 0 { -1 } else { 1 };
+                }
+                c
+            };
+            let maxv = mk(peak);
+            let mvf = peak as f64;
             acc.eval();
             let want = 10.0 * (mvf * mvf / (sqf / nf)).log10();
             match catch(|| va.peak_signal_to_noise_ratio(&vb, maxv)) {
@@ -917,6 +977,13 @@ fn entropy_case<F: Fl>(rng: &mut Rng, acc: &mut Acc) {
             break s;
         }
     };
+    let shape: Vec<usize> = if rng.chance(0.006) {
+        // element counts at powers of two / multiples of 128 and 4096 (blocked accumulations)
+        rng.pick(&[vec![4096usize], vec![64, 64], vec![16, 8, 32], vec![128], vec![16, 8], vec![256], vec![4095]]).clone()
+    } else {
+        shape
+    };
+    let nd = shape.len();
     let n: usize = shape.iter().product();
     let (lo, hi) = if F::IS32 { (-20.0, 3.0) } else { (-30.0, 3.0) };
     let genp = |rng: &mut Rng| -> Vec<f64> {
@@ -928,9 +995,16 @@ fn entropy_case<F: Fl>(rng: &mut Rng, acc: &mut Acc) {
         }
     };
     let mut p = genp(rng);
-    let mut q = match rng.below(4) {
+    let mut q = match rng.below(5) {
         0 => p.iter().map(|x| x * (1.0 + rng.normal() * 1e-6)).collect::<Vec<f64>>(),
         1 => p.clone(),
+        2 => {
+            // q close to one against an unnormalised p far from one: |ln q| << |ln p|
+            for x in p.iter_mut() {
+                *x = (1 + rng.below(9)) as f64 * *rng.pick(&[1.0, 100.0, 1000.0]);
+            }
+            (0..n).map(|_| 1.0 + rng.normal() * 1e-4).collect::<Vec<f64>>()
+        }
         _ => genp(rng),
     };
     // zeros in p, in q, in both (half of the arrays have none, so that the finite identities are exercised)
